@@ -6,15 +6,13 @@ ID = "C15"
 HARNESSES = [dict(name="cgnat", pkg="./internal/cgnat/", test="TestVerifC15", timeout=900,
                   files=[("internal/cgnat/zz_verif_c15_test.go", "harness/C15/zz_verif_c15_test.go")])]
 MODEL_NEEDS_IMPL = True
-# The model has one flag per defect that was found.  Fixed in /repo (a regression is a VIOLATION, no variant tried):
+# The model has one flag per defect that was found; all nine are fixed in /repo, so only the repaired model (= /repo
+# HEAD) is tried and a regression to any of them is a VIOLATION:
 # R restore unvalidated 285c7b2, A reverse Add duplicate 7d1d0b3, D duplicate outside address 3b1c45d, S synced rollback
-# 0cedd79, V inside VRF 0 53e73c2, X pools sharing an outside address 1fd8c60, L late add completion 8d8ac1d.
-# Open (audit round 2):
-#   C cgnat.Config.Validate accepts a reversed / unparseable port-range and a derived block size of 0
-#   G a release ignores the mapping the degraded restore branch preserved for a session that was not activated again
-# One defect variant is enough: a case shows C only if its configuration is one Validate should reject (and then the
-# repaired model ends the case at "invalid"), G only if the configuration is valid.
-VARIANTS = ["repaired", "def:CG"]
+# 0cedd79, V inside VRF 0 53e73c2, X pools sharing an outside address 1fd8c60, L late add completion 8d8ac1d,
+# C port geometry unchecked by Validate 0e7517a, G preserved mapping not released 2953f22.
+# The driver still understands "def:<letters>" (historical _refuted replays, triage by hand).
+VARIANTS = ["repaired"]
 DEFECT_NAMES = {"R": "restore-unvalidated", "A": "reverse-add-duplicate", "D": "duplicate-outside-address",
                 "S": "synced-rollback-keeps-reverse-entries", "V": "inside-vrf-zero",
                 "X": "pool-outside-overlap", "L": "late-add-completion",
@@ -492,9 +490,7 @@ def config_invalid(case):
 
 
 def signature(case, impl, models):
-    if models.get("def:CG") == impl:
-        return DEFECT_NAMES["C"] if config_invalid(case) else DEFECT_NAMES["G"]
-    return None
+    return None        # no finding is open
 
 
 def nontrivial(case, out):
